@@ -302,7 +302,7 @@ func replay(run *mc.Run, path string) {
 		w := newWorker()
 		fail, _ := w.runUnique(uc)
 		fmt.Println(uc.String())
-		fmt.Println("table after: " + w.dumpCodes(uc.Partial))
+		fmt.Println("table after: " + w.dumpCodesOf(uc))
 		if fail != "" {
 			fmt.Println("VERDICT: still violates: " + fail)
 			run.Violation(nil, fail, uc)
@@ -520,6 +520,9 @@ func main() {
 		if hookFallback == 0 {
 			run.HarnessError("vacuous: no Save of the hook model took the insert fallback")
 		}
+		if callerKeyConflicts == 0 {
+			run.HarnessError("vacuous: no conflict on the unique column of the caller-assigned-key model")
+		}
 		if uniqueConflicts == 0 {
 			run.HarnessError("vacuous: no conflict on the unique-column target")
 		}
@@ -536,37 +539,38 @@ func main() {
 	run.Assume("outside the alphabet: pointer to map in Where/Attrs/Assign (not accepted by gorm: assignInterfacesToValue and BuildCondition only know map values and treat *map as a primary-key value); OnConflict with an empty DoUpdates, OnConstraint, Where on DoNothing (not valid SQL), Attrs overlapping the condition columns, all-zero struct in Assign, hooks, associations, Select/Omit")
 	run.Assume("the re-seeded state equals the state reached by the real history up to the masked timestamps; checked once per expanded state by replaying the history on the implementation")
 	run.Finish(map[string]interface{}{
-		"states":                                  totalStates,
-		"states_expanded":                         expanded,
-		"transitions":                             st.transitions,
-		"traces_validated_against_impl":           st.transitions,
-		"evaluations":                             st.executions,
-		"distinct_nontrivial":                     st.nontrivial,
-		"distinct_outcomes":                       outcomes.Len(),
-		"rule":                                    fmt.Sprintf("BFS from the empty table over all operation sequences of length <= %d, per model (plain, soft-delete twin); a state is the table dump in key order with timestamps masked; every operation of the alphabet (Save x2 of keys 0..3, Create+OnConflict{DoNothing,UpdateAll,DoUpdates over every non-empty subset of name/age/email, constant assignment, UpdateAll and DoUpdates with a Where on excluded vs stored age} on keys 1..3 and two-row batches, soft delete, FirstOrInit/FirstOrCreate with 6 conditions x struct/map x Where/inline, conditions, Attrs and Assign also as pointer to struct, Attrs and Assign in struct/map/key-value form, Or/Not/grouped conditions around the condition, every writing FirstOrCreate repeated once, Session(&Session{}) or WithContext at every position of the chain) is executed on the implementation from every state of depth < %d (plus, for the states that also get the Session/WithContext chains, every unwrapped operation once more per statement it sends with that statement failing in the driver: error required, table unchanged) and compared with the reference map (returned record, RowsAffected, table, driver log); non-trivial = distinct (state, operation) whose step met existing data (key collision, match, invisible soft-deleted match) or built a record from conditions/Attrs/Assign", maxDepth, maxDepth),
-		"samples":                                 samples.List(),
-		"exhaustive":                              exhaustive,
-		"max_sequence_length":                     maxDepth,
-		"alphabet_size":                           alphaSize,
-		"states_per_depth":                        perDepth,
-		"single_fault_steps":                      st.faultSteps,
-		"first_or_create_repeated_calls":          st.createTwice,
-		"save_idempotence_checks":                 st.saveSecond,
-		"histories_replayed_on_impl":              st.pathReplayed,
-		"first_or_init_steps":                     st.firstOrInit,
-		"first_or_init_no_write_verified":         st.noWriteChecked,
-		"first_or_create_steps":                   st.firstOrCreate,
-		"session_withcontext_steps":               st.wrapped,
-		"session_withcontext_after_attrs_assign":  st.wrappedAfter,
-		"session_withcontext_positions":           wrapPos,
-		"step_classes":                            classes,
-		"unique_column_target_cases":              uniqueN,
-		"unique_column_target_conflicts":          uniqueConflicts,
-		"hook_model_save_cases":                   hookN,
-		"hook_model_save_fallback_cases":          hookFallback,
-		"partial_index_target_conflicts":          partialConflicts,
-		"partial_index_same_code_as_soft_deleted": partialHidden,
-		"violations_by_tag_and_kind":              dumpCounts(&violByTag),
+		"states":                                      totalStates,
+		"states_expanded":                             expanded,
+		"transitions":                                 st.transitions,
+		"traces_validated_against_impl":               st.transitions,
+		"evaluations":                                 st.executions,
+		"distinct_nontrivial":                         st.nontrivial,
+		"distinct_outcomes":                           outcomes.Len(),
+		"rule":                                        fmt.Sprintf("BFS from the empty table over all operation sequences of length <= %d, per model (plain, soft-delete twin); a state is the table dump in key order with timestamps masked; every operation of the alphabet (Save x2 of keys 0..3, Create+OnConflict{DoNothing,UpdateAll,DoUpdates over every non-empty subset of name/age/email, constant assignment, UpdateAll and DoUpdates with a Where on excluded vs stored age} on keys 1..3 and two-row batches, soft delete, FirstOrInit/FirstOrCreate with 6 conditions x struct/map x Where/inline, conditions, Attrs and Assign also as pointer to struct, Attrs and Assign in struct/map/key-value form, Or/Not/grouped conditions around the condition, every writing FirstOrCreate repeated once, Session(&Session{}) or WithContext at every position of the chain) is executed on the implementation from every state of depth < %d (plus, for the states that also get the Session/WithContext chains, every unwrapped operation once more per statement it sends with that statement failing in the driver: error required, table unchanged) and compared with the reference map (returned record, RowsAffected, table, driver log); non-trivial = distinct (state, operation) whose step met existing data (key collision, match, invisible soft-deleted match) or built a record from conditions/Attrs/Assign", maxDepth, maxDepth),
+		"samples":                                     samples.List(),
+		"exhaustive":                                  exhaustive,
+		"max_sequence_length":                         maxDepth,
+		"alphabet_size":                               alphaSize,
+		"states_per_depth":                            perDepth,
+		"single_fault_steps":                          st.faultSteps,
+		"first_or_create_repeated_calls":              st.createTwice,
+		"save_idempotence_checks":                     st.saveSecond,
+		"histories_replayed_on_impl":                  st.pathReplayed,
+		"first_or_init_steps":                         st.firstOrInit,
+		"first_or_init_no_write_verified":             st.noWriteChecked,
+		"first_or_create_steps":                       st.firstOrCreate,
+		"session_withcontext_steps":                   st.wrapped,
+		"session_withcontext_after_attrs_assign":      st.wrappedAfter,
+		"session_withcontext_positions":               wrapPos,
+		"step_classes":                                classes,
+		"unique_column_target_cases":                  uniqueN,
+		"unique_column_target_conflicts":              uniqueConflicts,
+		"caller_assigned_key_unique_target_conflicts": callerKeyConflicts,
+		"hook_model_save_cases":                       hookN,
+		"hook_model_save_fallback_cases":              hookFallback,
+		"partial_index_target_conflicts":              partialConflicts,
+		"partial_index_same_code_as_soft_deleted":     partialHidden,
+		"violations_by_tag_and_kind":                  dumpCounts(&violByTag),
 	})
 }
 
